@@ -1,20 +1,17 @@
+import Q1t.Proofs.DetShapePartIb
 import Q1t.Proofs.DetShapePartN1
+import Q1t.Proofs.DetShapePartN2b
+import Q1t.Proofs.DetShapePartG
+import Q1t.Proofs.DetShapePartK
 import Q1t.Proofs.DetShapePartC2
 /-!
-Assembly of `DetShapeHolds` for the generated tables.
-
-Proved so far: `PartN1` (`DetShapePartN1*.lean`), `PartC` (`DetShapePartC2*.lean`, elementary pigeonhole route).
-Until the other part files are complete, `detShapeHolds_of_remaining` takes them as hypotheses; when
-`DetShapePartI/N2/G/K.lean` compile with `partI`, `partN2`, `partG`, `partK`, import them here and add
-
-  `theorem detShapeHolds_generated (n) : DetShapeHolds (α := Q8) (A := Empty) n phG tblG ncG :=
-     detShapeHolds_of_remaining n (partI n) partN2 (partG n) partK`
+**`DetShapeHolds` for the generated tables, every `n`** — assembly of the parts of `DetShapePlan.lean`:
+`partIb`, `partN1`, `partN2b`, `partG`, `partK`, `partC2`.
 -/
 namespace Q1t.Proofs.DetPlan
 open Q1t Q1t.Proofs.TabG
 
-theorem detShapeHolds_of_remaining (n : Nat) (hI : PartI n) (hN2 : PartN2) (hG : PartG n) (hK : PartK) :
-    DetShapeHolds (α := Q8) (A := Empty) n phG tblG ncG :=
-  detShapeHolds_of_parts n hI (partN_of partN1 hN2) hG hK partC2
+theorem detShapeHolds_generated (n : Nat) : DetShapeHolds (α := Q8) (A := Empty) n phG tblG ncG :=
+  detShapeHolds_of_parts n (partIb n) (partN_of partN1 partN2b) (partG n) partK partC2
 
 end Q1t.Proofs.DetPlan
